@@ -194,6 +194,11 @@ class Aliases:
                 return self.is_rooted_expr(mname, e.args[0])
             if d.startswith('self.') and d[5:] in self.ret:
                 return True
+            # views / lookups on a rooted mapping yield parts of it
+            if isinstance(e.func, ast.Attribute) and e.func.attr in (
+                    'values', 'items', 'get', 'setdefault') and \
+                    self.is_rooted_expr(mname, e.func.value):
+                return True
             return False
         if isinstance(e, (ast.Tuple, ast.List)):
             return False
@@ -229,8 +234,10 @@ class Aliases:
                 for t in n.targets:
                     ch |= self._bind(mname, t, vr)
             elif isinstance(n, (ast.For, ast.comprehension)):
-                en = isinstance(n.iter, ast.Call) and \
-                    dotted(n.iter.func) == 'enumerate'
+                en = isinstance(n.iter, ast.Call) and (
+                    dotted(n.iter.func) == 'enumerate' or (
+                        isinstance(n.iter.func, ast.Attribute) and
+                        n.iter.func.attr == 'items'))
                 ch |= self._bind(mname, n.target,
                                  self.is_rooted_expr(mname, n.iter), en)
             elif isinstance(n, (ast.Return, ast.Yield)) and n.value is not None:
